@@ -34,6 +34,7 @@ func init() {
 }
 
 func runC02(c *core.Ctx) {
+	bytesCtorRule(c, "C02-SPEC")
 	ps := loadPDUs(c)
 	c.MinInstances("C02-SPEC", 57)
 	c.MinInstances("C02-SPEC-DEC", 57)
